@@ -240,8 +240,8 @@ example : (solo exLayout exProg 0 40 start).text 1 = .pristine ∧ (solo exLayou
 
 /-- the class hypothesis of `quiescent_restored_builders` is met by generated programs (re-stub, origin, table, double reset) -/
 example : builderProg [1, 2] [.mock 1 (.tab 5) false, .chk, .mock 2 (.cbo 7) true, .mock 1 (.cb 3) false, .reset, .reset, .mock 2 (.ret 4) false] =
-    [.replace 1 (.tab 5) false, .apply 1, .call 1 3, .call 2 3, .replace 2 (.cbo 7) true, .apply 2, .replace 1 (.cb 3) false, .apply 1,
-     .unpatch 1, .unpatch 2, .unpatch 1, .unpatch 2, .replace 2 (.ret 4) false, .apply 2, .unpatch 1, .unpatch 2, .call 1 3, .call 2 3] := by
+    [.replace 1 (.tab 5) false, .apply 1, .call 1 3, .call 1 1, .call 2 3, .call 2 1, .replace 2 (.cbo 7) true, .apply 2, .replace 1 (.cb 3) false, .apply 1,
+     .unpatch 1, .unpatch 2, .unpatch 1, .unpatch 2, .replace 2 (.ret 4) false, .apply 2, .unpatch 1, .unpatch 2, .call 1 3, .call 1 1, .call 2 3, .call 2 1] := by
   decide
 
 end C11
